@@ -481,9 +481,11 @@ fn probe(host: &Host, content: Option<&[u8]>, instants: &[i64], rng_salt: u64, s
         (1_711_418_400 + (rng_salt % 30_000_000) as i64, 0),
         (1_700_000_000 + (rng_salt % 40_000_000) as i64, 1),
         (4_102_444_800 + (rng_salt % 40_000_000) as i64, 2),
+        // anywhere between 1970 and 2500
+        ((rng_salt.wrapping_mul(0x9E37_79B9_7F4A_7C15) % tzsim::MAX_CLOCK as u64) as i64, 0),
     ];
     for (t, what) in picks {
-        if t < 0 || t > 1 << 33 {
+        if t < 0 || t > tzsim::MAX_CLOCK {
             continue;
         }
         let nanos = (rng_salt % 1_000_000_000) as u32;
@@ -678,7 +680,7 @@ fn enumerate_base(seed: u64, run: u64, base: &[u8], exhaustive_bits: bool, rng: 
     let lay = layout(base);
     // instants at which the intact file is resolved again after each repaired fault: inside the
     // intervals of its first and last transitions and in between
-    let mut restore_instants: Vec<i64> = instants.iter().cloned().filter(|t| *t >= 0 && *t < 1 << 33).collect();
+    let mut restore_instants: Vec<i64> = instants.iter().cloned().filter(|t| *t >= 0 && *t <= tzsim::MAX_CLOCK).collect();
     restore_instants.sort_unstable();
     restore_instants.dedup();
     if restore_instants.len() > 4 {
@@ -892,6 +894,40 @@ fn enumerate_base(seed: u64, run: u64, base: &[u8], exhaustive_bits: bool, rng: 
     stats.violations.extend(found);
     SimClock::uninstall();
     SimFs::uninstall();
+    // F13 indicator arrays: the standard/wall and UT/local arrays present independently of each
+    // other, with the wrong length, and with bytes other than 0 and 1 (rebuilt files, so that the
+    // rest of the layout stays consistent)
+    if let Ok(z) = tzref::parse_tzif(base) {
+        let fs = SimFs::install(None);
+        let clock = SimClock::install(Instant::new(0, 0));
+        let host = Host { fs, clock };
+        let nt = z.types.len();
+        let variants: Vec<(Vec<u8>, Vec<u8>)> = vec![
+            (vec![], vec![1; nt]),
+            (vec![0; nt], vec![1; nt]),
+            (vec![1; nt], vec![]),
+            (vec![2; nt], vec![255; nt]),
+            (vec![1; nt.saturating_sub(1)], vec![1; nt]),
+            (vec![1; nt + 1], vec![0; nt]),
+            (vec![1; nt], vec![1; nt + 3]),
+        ];
+        for (isstd, isut) in variants {
+            let mut spec = tzsim::spec_from_ref(&z);
+            spec.isstd = isstd;
+            spec.isut = isut;
+            let bytes = spec.build();
+            n += 1;
+            stats.inc("c19.fault.indicator_arrays.injected");
+            stats.add("c19.lookups.direct", instants.len() as u64);
+            if let Err((f, lookup)) = probe(&host, Some(&bytes), &instants, n ^ run, stats) {
+                stats.inc("c19.outcome.violation_scenarios");
+                stats.violations.push(report(seed, run, "F13-indicator-arrays", &bytes, None, lookup, f));
+                break;
+            }
+        }
+        SimClock::uninstall();
+        SimFs::uninstall();
+    }
     // F12 zone swap: not damage - the intact file is replaced by a sibling (same transition
     // instants, re-indexed or smaller type table; or one footer component changed) and back, with
     // the whole lookup battery after each step. Whatever the reader remembers must not cross files.
@@ -964,11 +1000,12 @@ fn gen_hostile_footer(rng: &mut Rng, corpus_footers: &[String]) -> Vec<u8> {
         }
     };
     let time = |rng: &mut Rng| -> String {
-        match rng.below(4) {
+        match rng.below(5) {
             0 => String::new(),
             1 => format!("/{}", pick_num(rng)),
             2 => format!("/{}:{}", pick_num(rng), pick_num(rng)),
-            _ => format!("/{}:{}:{}", pick_num(rng), pick_num(rng), pick_num(rng)),
+            3 => format!("/{}:{}:{}", pick_num(rng), pick_num(rng), pick_num(rng)),
+            _ => format!("/{}:{}:{}:{}{}", pick_num(rng), pick_num(rng), pick_num(rng), pick_num(rng), if rng.chance(1, 2) { ":0" } else { "" }),
         }
     };
     let mut s: Vec<u8> = match rng.below(13) {
@@ -978,7 +1015,7 @@ fn gen_hostile_footer(rng: &mut Rng, corpus_footers: &[String]) -> Vec<u8> {
             // difference, switch-overs at the very start or end of the year (crossing into the
             // neighbouring year with signed times), reversed or adjacent dates
             let dates = ["M3.5.0", "M3.4.0", "M10.5.0", "M1.1.0", "M1.1.1", "M12.5.6", "M12.5.0", "M2.4.0", "M2.5.3", "M2.4.2", "J1", "J365", "J59", "J60", "J61", "0", "365", "364", "58", "59", "60", "1"];
-            let times = ["", "/0", "/1", "/2", "/3", "/24", "/-1", "/-24", "/25", "/167", "/-167", "/26:59:59", "/1:00:01", "/0:59:59"];
+            let times = ["", "/0", "/1", "/2", "/3", "/24", "/-1", "/-24", "/25", "/167", "/-167", "/26:59:59", "/1:00:01", "/0:59:59", "/2:00:00:00", "/1:2:3:4:5", "/2:00:00:"];
             let offs = ["-1", "0", "1", "-14", "12", "24", "-24", "-0:00:01", "11:59:59"];
             let dsts = ["", "-2", "-1", "0", "1", "-1:00:01", "24", "-24", "-15"];
             let a = *rng.pick(&dates);
@@ -991,10 +1028,12 @@ fn gen_hostile_footer(rng: &mut Rng, corpus_footers: &[String]) -> Vec<u8> {
         0..=5 => {
             // grammar-shaped with hostile numbers
             let name = *rng.pick(&["CET", "<+0330>", "<-03>", "A", "", "<", "<>", "LONGNAME", "X1", "<+03\u{20ac}>", "<\u{e9}\u{e9}>", "<\u{1f600}>", "C\u{e9}T", "<\u{e9}+03>"]);
-            let off = match rng.below(3) {
+            let off = match rng.below(5) {
                 0 => "-1".to_string(),
                 1 => pick_num(rng),
-                _ => format!("{}:{}", pick_num(rng), pick_num(rng)),
+                2 => format!("{}:{}", pick_num(rng), pick_num(rng)),
+                3 => format!("{}:{}:{}", pick_num(rng), pick_num(rng), pick_num(rng)),
+                _ => format!("1:{}:{}:{}", pick_num(rng), pick_num(rng), pick_num(rng)),
             };
             let dname = *rng.pick(&["CEST", "<+0430>", "", "D"]);
             let doff = if rng.chance(1, 2) { String::new() } else { pick_num(rng) };
@@ -1148,7 +1187,7 @@ fn gen_lookup(rng: &mut Rng, bat: &[i64]) -> Op {
         };
         Op::LookupDirect { t }
     } else {
-        Op::LookupLocal { secs: rng.range(0, 1 << 33) as u64, nanos: rng.below(1_000_000_000) as u32, what: rng.below(3) as u8 }
+        Op::LookupLocal { secs: rng.range(0, tzsim::MAX_CLOCK) as u64, nanos: rng.below(1_000_000_000) as u32, what: rng.below(3) as u8 }
     }
 }
 
@@ -1242,7 +1281,7 @@ pub fn gen_sequence(rng: &mut Rng, corpus: &[(String, std::path::PathBuf)], foot
         let n_look = rng.range(1, 3);
         for i in 0..n_look {
             if interleave && i == 0 {
-                ops.push(Op::LookupLocal { secs: rng.range(0, 1 << 33) as u64, nanos: 0, what: rng.below(3) as u8 });
+                ops.push(Op::LookupLocal { secs: rng.range(0, tzsim::MAX_CLOCK) as u64, nanos: 0, what: rng.below(3) as u8 });
             } else {
                 ops.push(gen_lookup(rng, &bat));
             }
@@ -1442,12 +1481,15 @@ pub fn check(tier: &str, seed: u64) -> i32 {
             one_run(wr, seed, idx, stats);
         },
         |idx| {
+            // every run is a function of (tier, seed, run index): the replay re-executes that run
             let doc = Json::obj()
                 .set("property", Json::s("C19"))
                 .set("engine", Json::s("faults"))
                 .set("invariant", Json::s("L0-hang"))
                 .set("seed", Json::Int(seed as i128))
                 .set("run", Json::Int(idx as i128))
+                .set("rerun_run", Json::Int(idx as i128))
+                .set("observed", Json::s("a call into astrolabe did not return within the watchdog limit"))
                 .set("tier", Json::s(tier));
             crate::cronsim::hang_report("C19", seed, idx, doc);
         },
@@ -1508,6 +1550,20 @@ pub fn check(tier: &str, seed: u64) -> i32 {
 }
 
 pub fn replay(doc: &Json) -> i32 {
+    if let Some(idx) = doc.get("rerun_run").and_then(|v| v.int()) {
+        let tier = doc.get("tier").and_then(|v| v.str()).unwrap_or("quick");
+        let seed = doc.get("seed").and_then(|v| v.int()).unwrap_or(1) as u64;
+        let w = work(tier);
+        let mut st = Stats::default();
+        println!("replay: re-executing run {} of the {} tier under seed {}", idx, tier, seed);
+        one_run(&w, seed, idx as u64, &mut st);
+        if let Some(v) = st.violations.first() {
+            println!("replay: [{}] {}", v.invariant, v.what);
+            return 1;
+        }
+        println!("replay: the run completes; every call returned");
+        return 0;
+    }
     let sc = match doc.get("scenario").ok_or("no scenario".to_string()).and_then(scenario_from_json) {
         Ok(s) => s,
         Err(e) => {
